@@ -138,7 +138,7 @@ class _Base(Harness):
             t /= x["c"]
             return None
         if m == "dtype":
-            t.dtype = "float32" if str(t.dtype) != "float32" else "float64"
+            t.dtype = "float64" if str(t.dtype) != "float64" else "float128"
             return None
         if m == "meta":
             t.name = "changed"
@@ -157,6 +157,7 @@ class _Base(Harness):
 
     def drive(self, E, p, x):
         h, g = self._make(E, p, x)
+        g_initial = full(E, g)
         der = E.attempt(self._derive, E, p, h, g, x)
         if isinstance(der, Raised) or isinstance(der, tuple):
             return {"skipped": repr(der)}
@@ -166,10 +167,13 @@ class _Base(Harness):
         target, other = (der, h) if p["side"] == "derived" else (h, der)
         obs["derived_initial"] = full(E, der)
         obs["other_before"] = full(E, other)
+        obs["operand_before"] = g_initial
+        obs["operand_after_derivation"] = full(E, g)
         r = E.attempt(self._mutate, E, p, target, x)
         obs["mutation"] = {"raised": r} if isinstance(r, Raised) else "ok"
         obs["other_after"] = full(E, other)
         obs["target_after"] = full(E, target)
+        obs["operand_after"] = full(E, g)
         return obs
 
     def oracle(self, cx, p, x, obs):
@@ -180,6 +184,9 @@ class _Base(Harness):
         if obs["identical_object"]:
             return
         yield "other_unchanged", same_snapshot(cx, obs["other_before"], obs["other_after"])
+        if p["deriv"] in ("add", "sub"):
+            yield "second_operand_unchanged_by_derivation", same_snapshot(cx, obs["operand_before"], obs["operand_after_derivation"])
+            yield "second_operand_unchanged_by_mutation", z3.And(same_snapshot(cx, obs["operand_before"], obs["operand_after"]), wellformed(cx, obs["operand_after"]))
         yield "other_wellformed", wellformed(cx, obs["other_after"])
         if obs["mutation"] == "ok":
             yield "target_wellformed", wellformed(cx, obs["target_after"])
@@ -227,7 +234,7 @@ class C12Adaptive1D(_Base):
             yield f"1da-{d}-{m}-{side}", dict(deriv=d, mut=m, side=side)
 
     def declare(self, cx, p):
-        x = {"f": declare_cells(cx, "f", [3], "int"), "g": declare_cells(cx, "g", [3], "int"), "t": cx.pyint("t", -2, 2)}
+        x = {"f": declare_cells(cx, "f", [3], "int"), "g": declare_cells(cx, "g", [3], "int"), "t": cx.pyint("t", -2, 2), "d": cx.pyint("d", -2, 2)}
         self._common_declare(cx, p, x)
         if cx.sym:
             cx.assume(x["v"] >= x["t"] - 3, x["v"] < x["t"] + 6)
@@ -240,7 +247,7 @@ class C12Adaptive1D(_Base):
         H1 = E.mod("physt.histogram1d").Histogram1D
         FWB = E.mod("physt.binnings").FixedWidthBinning
         h = H1(FWB(bin_width=1.0, bin_count=3, bin_times_min=x["t"], adaptive=True), np.asarray(x["f"], dtype=int), name="src", axis_name="ax")
-        g = H1(FWB(bin_width=1.0, bin_count=3, bin_times_min=x["t"], adaptive=True), np.asarray(x["g"], dtype=int))
+        g = H1(FWB(bin_width=1.0, bin_count=3, bin_times_min=x["t"] + x["d"], adaptive=True), np.asarray(x["g"], dtype=int))
         return h, g
 
 
